@@ -106,8 +106,15 @@ func (b *Bed) proxyHost() string {
 }
 
 // Op performs a rule-set operation on the real processor.
-func (b *Bed) Op(kind, src string, rules []Rule) (string, string) {
+func (b *Bed) Op(kind, src string, rules []Rule) (res string, msg string) {
 	var err error
+
+	// a panic while a rule set is processed would end the provider goroutine (and the process)
+	defer func() {
+		if r := recover(); r != nil {
+			res, msg = "panicked", fmt.Sprint(r)
+		}
+	}()
 
 	switch kind {
 	case "add":
